@@ -109,7 +109,7 @@ def array_len(node):
     return None, None
 
 
-def check(ctx, fns, rule="R4.array", key_prefix="array-index", field_consts=None):
+def check(ctx, fns, rule="R4.array", key_prefix="array-index", field_consts=None, skip_records=()):
     P = ctx.P
     n = 0
     invs = {}
@@ -125,6 +125,8 @@ def check(ctx, fns, rule="R4.array", key_prefix="array-index", field_consts=None
             L, arr = array_len(node)
             if L is None or node.c[1].cv is not None:
                 continue
+            if arr.strip_casts().k == "MemberExpr" and arr.strip_casts().get("rec") in skip_records:
+                continue            # state of another component (e.g. the encoder), decided elsewhere
             n += 1
             idx = node.c[1].strip_casts()
             post = False
@@ -237,6 +239,11 @@ def _bound(P, fn, cz, node, idx, L, inv, field_consts):
                 continue
             kids = [x for x in g.c if x is not None]
             c = kids[0].strip()
+            refill_in_cond = []
+            if c.k == "BinaryOperator" and c.op == "&&":
+                # `if (idx >= B && !refill()) exit;`: the refill runs exactly when the index is exhausted
+                refill_in_cond = [x for x in c.c[1].walk() if x.k == "CallExpr" and x.callee]
+                c = c.c[0].strip()
             if c.k != "BinaryOperator" or c.op != ">=" or src(c.c[0].strip_casts()) != itxt:
                 continue
             first = min((x for x in g.walk() if x.i in w), key=lambda x: x.i, default=None)
@@ -252,7 +259,7 @@ def _bound(P, fn, cz, node, idx, L, inv, field_consts):
             if bk is None or bk > L:
                 continue
             resets = False
-            for call in kids[1].walk():
+            for call in list(kids[1].walk()) + refill_in_cond:
                 if call.k == "CallExpr" and call.callee:
                     for cal in P.by_name.get(call.callee, []):
                         if cal.file == fn.file and _resets_field(P, cal, base.name, 2):
